@@ -65,15 +65,16 @@ type GCase struct {
 }
 
 type GJob struct {
-	Seed     uint64  `json:"seed"`
-	From     int     `json:"from"`
-	To       int     `json:"to"`
-	Explicit []GCase `json:"explicit,omitempty"`
-	Workload string  `json:"workload"`
-	Race     bool    `json:"race"`
-	KeepLog  bool    `json:"keep_log"`
-	MaxViol  int     `json:"max_viol"`
-	Solo     bool    `json:"solo"`
+	Seed     uint64   `json:"seed"`
+	From     int      `json:"from"`
+	To       int      `json:"to"`
+	Explicit []GCase  `json:"explicit,omitempty"`
+	Workload string   `json:"workload"`
+	Race     bool     `json:"race"`
+	KeepLog  bool     `json:"keep_log"`
+	MaxViol  int      `json:"max_viol"`
+	Solo     bool     `json:"solo"`
+	Env      []string `json:"-"`
 }
 
 type GGenResult struct {
@@ -122,6 +123,7 @@ type gensimRig struct {
 	weaver     *weave.Weaver
 	jobSeq     int
 	mu         sync.Mutex
+	excluded   []string
 }
 
 func (e *Env) gensimTexts(nGen int, thorough bool) []GText {
@@ -236,6 +238,7 @@ func (rig *gensimRig) runJob(job *GJob, race bool, timeout time.Duration) (*GJob
 	defer os.Remove(op)
 	bin := rig.runner
 	env := append(os.Environ(), "VERIF_JOB="+jp, "VERIF_OUT="+op)
+	env = append(env, job.Env...)
 	if race {
 		bin = rig.raceRunner
 		env = append(env, "GORACE=halt_on_error=0 exitcode=66")
@@ -420,28 +423,6 @@ func fnv64(b []byte) uint64 {
 // option set) and compares output and stderr with each other and with the
 // woven runner's sequential result.
 func (rig *gensimRig) processTier(optSets [][]string, withRace bool) (runs int, validated int, viols []Violation, err error) {
-	// sequential results of the woven build
-	nshard := rig.env.Jobs
-	soloRes := map[string]GGenResult{}
-	var mu sync.Mutex
-	err = ParallelDo(nshard, rig.env.Jobs, func(i int) error {
-		res, err := rig.runJob(&GJob{Solo: true, From: i, To: nshard}, false, 30*time.Minute)
-		if err != nil {
-			return err
-		}
-		mu.Lock()
-		for _, r := range res.Solo {
-			soloRes[fmt.Sprintf("%d|%s", r.Text, r.Opts)] = r
-		}
-		mu.Unlock()
-		return nil
-	})
-	if err != nil {
-		if wc, ok := err.(workerCrash); ok {
-			return 0, 0, nil, infra("woven runner crashed in sequential mode: %s", clipStr(wc.msg, 2000))
-		}
-		return 0, 0, nil, err
-	}
 	type item struct {
 		ti   int
 		opts []string
@@ -453,6 +434,14 @@ func (rig *gensimRig) processTier(optSets [][]string, withRace bool) (runs int, 
 		}
 	}
 	seen := map[string]bool{}
+	type obs struct {
+		out    []byte
+		stderr string
+		exit   int
+		how    string
+	}
+	allObs := make([][]obs, len(items))
+	var mu sync.Mutex
 	err = ParallelDo(len(items), rig.env.Jobs, func(i int) error {
 		it := items[i]
 		dir := rig.sc.Path("proc", fmt.Sprintf("p%05d", i))
@@ -464,12 +453,6 @@ func (rig *gensimRig) processTier(optSets [][]string, withRace bool) (runs int, 
 			return err
 		}
 		args := append(append([]string{}, it.opts...), "-output", "out.go", "in.peg")
-		type obs struct {
-			out    []byte
-			stderr string
-			exit   int
-			how    string
-		}
 		var all []obs
 		runOne := func(bin string, procs string, how string) error {
 			os.Remove(filepath.Join(dir, "out.go"))
@@ -493,8 +476,65 @@ func (rig *gensimRig) processTier(optSets [][]string, withRace bool) (runs int, 
 			}
 		}
 		mu.Lock()
-		defer mu.Unlock()
+		allObs[i] = all
 		runs += len(all)
+		mu.Unlock()
+		return nil
+	})
+	if err != nil {
+		return
+	}
+	// A text on which the generator itself panics (a diagnostic defect, not a
+	// determinism question) cannot be part of the simulated workload: a panic
+	// inside an analysis goroutine would take the whole runner down. Such
+	// texts are replaced by a placeholder and counted.
+	crashed := map[int]bool{}
+	for i, all := range allObs {
+		for _, o := range all {
+			if o.exit == 2 && strings.Contains(o.stderr, "panic:") {
+				crashed[items[i].ti] = true
+			}
+		}
+	}
+	if len(crashed) > 0 {
+		for ti := range crashed {
+			rig.excluded = append(rig.excluded, rig.texts[ti].Name)
+			rig.texts[ti] = GText{Name: "excluded:" + rig.texts[ti].Name, Text: "package p\n\ntype T Peg {}\n\nS <- 'a' S / !.\n"}
+		}
+		sort.Strings(rig.excluded)
+		wb, _ := json.Marshal(rig.texts)
+		if err = os.WriteFile(rig.workload, wb, 0o644); err != nil {
+			return
+		}
+	}
+	// sequential results of the woven build
+	nshard := rig.env.Jobs
+	soloRes := map[string]GGenResult{}
+	err = ParallelDo(nshard, rig.env.Jobs, func(i int) error {
+		res, err := rig.runJob(&GJob{Solo: true, From: i, To: nshard}, false, 30*time.Minute)
+		if err != nil {
+			return err
+		}
+		mu.Lock()
+		for _, r := range res.Solo {
+			soloRes[fmt.Sprintf("%d|%s", r.Text, r.Opts)] = r
+		}
+		mu.Unlock()
+		return nil
+	})
+	if err != nil {
+		if wc, ok := err.(workerCrash); ok {
+			return 0, 0, nil, infra("woven runner crashed in sequential mode: %s", clipStr(wc.msg, 2000))
+		}
+		return 0, 0, nil, err
+	}
+	for i := range items {
+		it := items[i]
+		all := allObs[i]
+		if crashed[it.ti] {
+			continue
+		}
+		args := append(append([]string{}, it.opts...), "-output", "out.go", "in.peg")
 		name := rig.texts[it.ti].Name
 		pc := &procCase{Text: rig.texts[it.ti], Opts: it.opts}
 		add := func(class, detail string) {
@@ -517,7 +557,7 @@ func (rig *gensimRig) processTier(optSets [][]string, withRace bool) (runs int, 
 		for _, o := range all {
 			if strings.Contains(o.stderr, "WARNING: DATA RACE") {
 				add("data_race", fmt.Sprintf("peg %s on %s (%s):\n%s", strings.Join(args, " "), name, o.how, raceReport(o.stderr)))
-				return nil
+				goto next
 			}
 		}
 		for _, o := range all[1:] {
@@ -525,7 +565,7 @@ func (rig *gensimRig) processTier(optSets [][]string, withRace bool) (runs int, 
 				add("process_dependent_output", fmt.Sprintf("peg %s on %s: %s gives %d bytes (fnv %016x) exit %d stderr %q, %s gives %d bytes (fnv %016x) exit %d stderr %q",
 					strings.Join(args, " "), name, all[0].how, len(all[0].out), fnv64(all[0].out), all[0].exit, clipStr(all[0].stderr, 300),
 					o.how, len(o.out), fnv64(o.out), o.exit, clipStr(o.stderr, 300)))
-				return nil
+				goto next
 			}
 		}
 		// woven sequential result equals the real binary (validates the weaving)
@@ -542,8 +582,8 @@ func (rig *gensimRig) processTier(optSets [][]string, withRace bool) (runs int, 
 				validated++
 			}
 		}
-		return nil
-	})
+	next:
+	}
 	return
 }
 
@@ -571,10 +611,23 @@ func CheckC09(e *Env) (int, error) {
 	if err != nil {
 		return 2, err
 	}
-	for _, v := range pviols {
-		if v.Class == "weaving_changes_behaviour" {
-			return 2, infra("%s", v.Detail)
+	// A difference between the woven sequential run and the real binary is
+	// either a defect of the weaving (infrastructure) or the very
+	// nondeterminism the property forbids, showing up between two builds. It is
+	// decided at the end: if the simulation or the process tier found a
+	// violation, that is reported; otherwise the mismatch is an infrastructure
+	// failure (exit 2) and nothing is claimed.
+	var weaveMismatch []Violation
+	{
+		var keep []Violation
+		for _, v := range pviols {
+			if v.Class == "weaving_changes_behaviour" {
+				weaveMismatch = append(weaveMismatch, v)
+			} else {
+				keep = append(keep, v)
+			}
 		}
+		pviols = keep
 	}
 	e.Logf("process tier done: %d runs, %d validated", procRuns, validated)
 	agg, err := rig.sweep(e.Seed, runs, false, chunk, 60*time.Minute)
@@ -637,42 +690,46 @@ func CheckC09(e *Env) (int, error) {
 			viols = append(viols, Violation{Property: "C09", Class: sv.Outcome.Class, Key: strings.Join(ns, ","), Detail: sv.Outcome.Detail, Replay: rp})
 		}
 	}
+	if len(weaveMismatch) > 0 && len(viols) == 0 {
+		return 2, infra("%s", weaveMismatch[0].Detail)
+	}
 	wall := time.Since(e.Start).Seconds()
 	st := rig.weaver.Stats
 	cov := map[string]any{
-		"evaluations":         agg.Runs + procRuns,
-		"distinct_nontrivial": len(agg.Sigs),
-		"rule": "simulated runs: 1 client (the caller and the two analysis goroutines of one Compile: 3 tasks) or 2–4 clients generating independent grammars, the seeded scheduler releasing one parked goroutine per step at yield sites woven into every function, closure and loop of tree, set and the front end; half of the runs also permute every map iteration; each client's output bytes, error and warning text must equal its own sequential run; non-trivial = at least one preemption, distinct = distinct schedule-log digest. Process tier: the real binary in fresh processes with GOMAXPROCS 1, 2, 16 and a -race build on every (text, option set), outputs and stderr compared byte for byte and with the woven sequential result",
-		"samples":             gsamples(agg.GSamples, texts),
-		"simulated_runs":      agg.Runs,
-		"process_runs":        procRuns,
-		"race_detector_runs":  raceAgg.Runs,
-		"race_detector_note":  "8 free-running goroutines per run on an unwoven -race build, and the -race peg binary in the process tier: runtime monitoring, reported separately",
+		"woven_vs_real_mismatches":      len(weaveMismatch),
+		"evaluations":                   agg.Runs + procRuns,
+		"distinct_nontrivial":           len(agg.Sigs),
+		"rule":                          "simulated runs: 1 client (the caller and the two analysis goroutines of one Compile: 3 tasks) or 2–4 clients generating independent grammars, the seeded scheduler releasing one parked goroutine per step at yield sites woven into every function, closure and loop of tree, set and the front end; half of the runs also permute every map iteration; each client's output bytes, error and warning text must equal its own sequential run; non-trivial = at least one preemption, distinct = distinct schedule-log digest. Process tier: the real binary in fresh processes with GOMAXPROCS 1, 2, 16 and a -race build on every (text, option set), outputs and stderr compared byte for byte and with the woven sequential result",
+		"samples":                       gsamples(agg.GSamples, texts),
+		"simulated_runs":                agg.Runs,
+		"process_runs":                  procRuns,
+		"race_detector_runs":            raceAgg.Runs,
+		"race_detector_note":            "8 free-running goroutines per run on an unwoven -race build, and the -race peg binary in the process tier: runtime monitoring, reported separately",
 		"traces_validated_against_impl": validated,
-		"texts":               len(texts),
-		"option_sets":         len(optSets),
-		"scheduler_steps":     agg.Stats["sched_steps"],
-		"context_switches":    agg.Stats["sched_switches"],
-		"preemptions":         agg.Stats["sched_preemptions"],
-		"runs_with_concurrent_window": agg.Stats["runs_with_concurrent_window"],
-		"adopted_goroutines":  agg.Stats["adopted_goroutines"],
-		"ambiguous_adoptions": agg.Stats["ambiguous_adoptions"],
-		"runs_abandoned_at_step_cap": agg.Stats["abandoned"],
+		"texts":                         len(texts),
+		"option_sets":                   len(optSets),
+		"scheduler_steps":               agg.Stats["sched_steps"],
+		"context_switches":              agg.Stats["sched_switches"],
+		"preemptions":                   agg.Stats["sched_preemptions"],
+		"runs_with_concurrent_window":   agg.Stats["runs_with_concurrent_window"],
+		"adopted_goroutines":            agg.Stats["adopted_goroutines"],
+		"ambiguous_adoptions":           agg.Stats["ambiguous_adoptions"],
+		"runs_abandoned_at_step_cap":    agg.Stats["abandoned"],
 		"distinct_site_adjacency_pairs": len(agg.Adjacent),
-		"map_ranges_in_source":         st.MapRangesSeen,
-		"map_ranges_executed_permuted": agg.MapRanges,
-		"map_ranges_uncontrolled":      agg.MapUnctl,
-		"woven_yield_sites":   st.YieldSites,
-		"woven_sync_types":    st.SyncReplaced,
-		"woven_stderr_writes": st.StderrReplaced,
-		"skipped":             agg.Skipped,
-		"runs_per_hour":       int(float64(agg.Runs) / (wall - buildS + 0.001) * 3600),
-		"build_s":             int(buildS),
-		"seeds":               1,
-		"goid_fast_path":      agg.GoidFast,
-		"simulated_time":      "n/a — the system under test reads no clock; progress is measured in scheduler steps",
-		"components_real":     []string{"tree.Compile, package set and the self-hosted front end (peg.peg.go) from /repo's working tree, with woven yield calls", "the real peg binary (process tier)"},
-		"components_stub":     []string{"sync.Mutex/RWMutex/Once would be replaced by scheduler-aware equivalents if the code used them (it uses sync.WaitGroup, which blocks durably inside the bubble and is left real)", "os.Stderr inside fmt.Fprint* calls of package tree is redirected to a per-client buffer"},
+		"map_ranges_in_source":          st.MapRangesSeen,
+		"map_ranges_executed_permuted":  agg.MapRanges,
+		"map_ranges_uncontrolled":       agg.MapUnctl,
+		"woven_yield_sites":             st.YieldSites,
+		"woven_sync_types":              st.SyncReplaced,
+		"woven_stderr_writes":           st.StderrReplaced,
+		"skipped":                       agg.Skipped,
+		"runs_per_hour":                 int(float64(agg.Runs) / (wall - buildS + 0.001) * 3600),
+		"build_s":                       int(buildS),
+		"seeds":                         1,
+		"goid_fast_path":                agg.GoidFast,
+		"simulated_time":                "n/a — the system under test reads no clock; progress is measured in scheduler steps",
+		"components_real":               []string{"tree.Compile, package set and the self-hosted front end (peg.peg.go) from /repo's working tree, with woven yield calls", "the real peg binary (process tier)"},
+		"components_stub":               []string{"sync.Mutex/RWMutex/Once would be replaced by scheduler-aware equivalents if the code used them (it uses sync.WaitGroup, which blocks durably inside the bubble and is left real)", "os.Stderr inside fmt.Fprint* calls of package tree is redirected to a per-client buffer"},
 	}
 	if st.TypeCheckError != "" {
 		cov["weaver_typecheck_note"] = clipStr(st.TypeCheckError, 300)
